@@ -16,7 +16,7 @@ import os
 import re
 
 from machines.common import (CACHE_REL, DOC_FILE, PDOC_FILE, cid, gen_doc, gen_sp,
-                             gen_value, norm, quiet, read_cache, read_json, same, viol)
+                             gen_value, norm, quiet, raw_project, read_cache, read_json, same, viol)
 from simcore.driver import EngineBase, generic_shrink
 from simcore.faultenum import fault_label, run_op, variants
 from simcore.sched import Scheduler, SimRLock, install_locks, install_pools
@@ -146,6 +146,9 @@ class Engine(EngineBase):
                 "remove": rng.randrange(0, njobs + 1),
                 "big": rng.random() < 0.25,
             }
+        # crash mode: after the restart the next complete write of the same file must give exactly its
+        # content (a stale temporary file of the dead writer must not leak into it)
+        sc["followup"] = mode == "crash" and target in ("jobdoc", "projdoc", "cache") and rng.random() < 0.5
         if mode == "reader":
             sc["schedules"] = rng.randrange(4, 10)
             sc["policy"] = rng.choice(["random", "pct"])
@@ -393,7 +396,65 @@ class Engine(EngineBase):
                     f"after {lab} at step {fault['step']}: {bad}",
                     f"C10:{sc['target']}:unexpected-entries-after-crash", {"only_fault": fault}))
                 return
+            if sc.get("followup"):
+                world.clock_ms = max(world.clock_ms, info.get("clock_ms", 0))
+                world.new_incarnation(f"after-{fault['step']}-{fault['kind']}")
+                bad = self._followup(sc, world, pp, targets)
+                res["stats"]["probes"]["followup_writes"] = res["stats"]["probes"].get("followup_writes", 0) + 1
+                if bad:
+                    res["violations"].append(viol(
+                        P, f"C10:{sc['target']}:next-write-after-crash-{bad[0]}",
+                        f"after {lab} at step {fault['step']} and a restart, the next complete write left "
+                        f"{os.path.relpath(targets[0], world.root)} {bad[1]}",
+                        f"C10:{sc['target']}:next-write-after-crash", {"only_fault": fault}))
+                    return
         res["outcome"] = f"{len(vs)} fault variants held"
+
+    def _followup(self, sc, world, pp, targets):
+        """The process is back after the crash and writes the same file again, completely: the file must
+        then hold exactly that content.  Returns (class suffix, detail) or None."""
+        import signac
+
+        project = signac.Project(pp)
+        if sc["target"] == "cache":
+            # a smaller workspace than the one the dead writer was describing
+            with world.observing():
+                ids = sorted(raw_project(pp))
+            for jid in ids[: max(1, (len(ids) * 3) // 4)]:
+                try:
+                    project.open_job(id=jid).remove()
+                except Exception as e:  # noqa: BLE001
+                    return ("raised", f"untouched: removing job {jid[:8]} raised {type(e).__name__}: {e}")
+            project = signac.Project(pp)
+            try:
+                project.update_cache()
+            except Exception as e:  # noqa: BLE001
+                return ("raised", f"unwritten: update_cache() raised {type(e).__name__}: {str(e)[:160]}")
+            st, content = self._read_target(sc, targets[0])
+            with world.observing():
+                want = raw_project(pp)
+            if st != "ok":
+                return ("unreadable", f"{st} (workspace holds {len(want)} jobs)")
+            if set(content) != set(want) or any(not same(content[j], want[j]["sp"][1]) for j in want):
+                return ("wrong-content", f"listing {sorted(x[:6] for x in content)}, the workspace holds "
+                                         f"{sorted(x[:6] for x in want)}")
+            try:
+                signac.Project(pp)._read_cache()
+            except Exception as e:  # noqa: BLE001
+                return ("unreadable", f"unreadable for signac: {type(e).__name__}: {str(e)[:120]}")
+            return None
+        want = {"followup": "w%d" % (world.seq % 997)}
+        try:
+            if sc["target"] == "projdoc":
+                project.doc.reset(want)
+            else:
+                project.open_job(sc["jobs"][0]).doc.reset(want)
+        except Exception as e:  # noqa: BLE001
+            return ("raised", f"unwritten: the document reset raised {type(e).__name__}: {str(e)[:160]}")
+        st, val = self._read_target(sc, targets[0])
+        if st != "ok" or not same(val, want):
+            return ("wrong-content" if st == "ok" else "unreadable", f"{st}: {str(val)[:120]!r}, written {want}")
+        return None
 
     def _wkind(self, sc):
         if sc["target"] == "migdoc":
